@@ -59,6 +59,7 @@ inductive Src where
   | const (v : Val)
   | inject (key : Str) (dflt : Option Str)
   | selfId                            -- self.id
+  | side                              -- a nested, completed `OtherComponent.render()` whose result is dropped
 deriving Repr, Inhabited
 
 structure CompDef where
@@ -338,6 +339,7 @@ def getContextData (env : Env) (id : Nat) (ctx : Ctx) (kw : List (Str × Val)) :
       | .const v => pure v
       | .inject key dflt => injectM env id ctx key dflt
       | .selfId => pure (.idBox id)
+      | .side => pure (.str [])          -- must leave no trace in this render
     getContextData env id ctx kw rest (setL out v acc)
 
 def isDynName (n : Str) : Bool := n = "dynamic".toList
